@@ -19,9 +19,9 @@
      pass — non-ASCII text in a netloc is restricted to NFKC-stable code points;
    * str.lower() outside ASCII (host names): non-ASCII code points are left unchanged;
    * str.isprintable() outside Latin-1 (repr): code points >= 256 count as printable;
-   * the Latin-1 -> UTF-8 re-decoding of the WSGI path / query and the UTF-8 decoding
-     of the ASGI query string: the model receives the decoded text, the cases are
-     restricted to valid UTF-8;
+   * (the Latin-1 -> UTF-8 re-decoding of the WSGI path / query and the UTF-8 decoding
+     of the ASGI query string are modelled in C18/Unicode.v, on top of this file:
+     [build_url], [scope_url], [environ_url] here receive the decoded text;)
    * percent-escapes >= %80 in parse_qsl (UTF-8 decoding with replacement);
      surrogate code points in quote_plus (UnicodeEncodeError). *)
 From Coq Require Import List NArith Bool Arith.
